@@ -242,41 +242,50 @@ func (state *State) ClearBlockRequests(ctx context.Context) {
 	state.pendingBlockSize = 0
 }
 
-func (state *State) ClearBlockRequestsAfter(ctx context.Context, hash bitcoin.Hash32) {
+// ClearBlockRequestsAfter removes the block requests, and blocks to be requested, that follow the
+// specified hash. It returns false and changes nothing if the hash is not a pending block.
+// A block is pending if it is requested, is to be requested, or has been taken by NextBlock and is
+// still being processed (then everything requested follows it). Finding the hash and clearing what
+// follows is one step, so the block processor can't take blocks in between.
+func (state *State) ClearBlockRequestsAfter(ctx context.Context, hash bitcoin.Hash32) bool {
 	state.lock.Lock()
 	defer state.lock.Unlock()
 
-	logger.Info(ctx, "Clearing block requests after : %s", hash)
-
 	for i, requested := range state.blocksRequested {
 		if requested.hash.Equal(&hash) {
-			if len(state.blocksRequested) > i {
-				logger.Info(ctx, "Removing %d requested blocks", len(state.blocksRequested)-i-1)
-				for _, removed := range state.blocksRequested[i+1:] {
-					if removed.block != nil {
-						state.pendingBlockSize -= removed.size
-					}
+			logger.Info(ctx, "Clearing block requests after : %s", hash)
+			logger.Info(ctx, "Removing %d requested blocks", len(state.blocksRequested)-i-1)
+			for _, removed := range state.blocksRequested[i+1:] {
+				if removed.block != nil {
+					state.pendingBlockSize -= removed.size
 				}
-				state.blocksRequested = state.blocksRequested[:i+1]
-			} else {
-				logger.Info(ctx, "Removing %d requested blocks", 0)
 			}
+			state.blocksRequested = state.blocksRequested[:i+1]
 			state.blocksToRequest = nil
-			return
+			return true
 		}
 	}
 
 	for i, toRequest := range state.blocksToRequest {
 		if toRequest.Equal(&hash) {
-			if len(state.blocksToRequest) > i {
-				logger.Info(ctx, "Removing %d blocks to request", len(state.blocksToRequest)-i-1)
-				state.blocksToRequest = state.blocksToRequest[:i+1]
-			} else {
-				logger.Info(ctx, "Removing %d blocks to request", 0)
-			}
-			return
+			logger.Info(ctx, "Clearing block requests after : %s", hash)
+			logger.Info(ctx, "Removing %d blocks to request", len(state.blocksToRequest)-i-1)
+			state.blocksToRequest = state.blocksToRequest[:i+1]
+			return true
 		}
 	}
+
+	if state.processingHash != nil && state.processingHash.Equal(&hash) {
+		logger.Info(ctx, "Clearing block requests after block being processed : %s", hash)
+		logger.Info(ctx, "Removing %d requested blocks and %d blocks to request",
+			len(state.blocksRequested), len(state.blocksToRequest))
+		state.blocksRequested = state.blocksRequested[:0]
+		state.blocksToRequest = nil
+		state.pendingBlockSize = 0
+		return true
+	}
+
+	return false
 }
 
 func (state *State) BlockRequestHash(delta int) *bitcoin.Hash32 {
